@@ -164,7 +164,30 @@ def run(idx, rep, tier):
                         detail=p, locs=[idx.loc(f.module, f.node)] + [w[1] for w in whys[:4]], derivation=[list(w) for w in whys[:8]])
     rep.analysed["public_roots"] = n_roots
 
-    # ------------------------------------------------------------ clause 3: annotation wrapper
+    declare_annotation(idx, rep, own)
+
+    # ------------------------------------------------------------ clause 4: flatten / unflatten agreement
+    flatten_protocol(idx, rep)
+
+    rep.floor("write-site", 90)
+    rep.floor("public-root-param-write", 150)
+    rep.floor("operator-mutation", 6)
+    rep.floor("declare-annotation", 1)
+    rep.floor("flatten-protocol", 5)
+    rep.explanation = ("Ownership analysis: every in-place write site in cola/ (update_array, augmented assignment, subscript/attribute store, out=, mutating "
+                       "methods, setattr) is classified by the origins of its target (fresh / view / parameter / self attribute / global), flow-sensitively per "
+                       "function, with parameter-write and return-alias summaries propagated through resolved calls (dispatch rules, methods, loop-carried "
+                       "states) to a fixpoint; products are treated as possibly returning their operand because Identity._matmat does.")
+    rep.assumptions += [
+        "backend functions listed in sa/own.py XNP_FRESH return fresh storage; XNP_VIEW may alias their first argument",
+        "a parameter with a numeric/str default or int/float/bool/str annotation is an immutable scalar (augmented assignment rebinds)",
+        "the history clause of flatten (registry filled by first instance) is not decided",
+        "excluded symbols: " + "; ".join(f"{k[1]} ({v})" for k, v in EXCLUDED_FUNCS.items()),
+    ]
+
+
+def declare_annotation(idx, rep, own):
+    """clause 3 (shared with C05): declaring an annotation builds a new object and a new set"""
     wrap = None
     for ci in idx.classes.values():
         if ci.name == "WrapMeta" and "__call__" in ci.methods:
@@ -195,25 +218,6 @@ def run(idx, rep, tier):
             rep.decide(ok, "declare-annotation", "WrapMeta.__call__",
                        f"annotation stored on {'a freshly unflattened object' if new_obj_fresh else 'an object that is not fresh: ' + show(stores[0].origins)}; "
                        f"value {'is a new set' if val_fresh else 'aliases the argument set'}", detail="" if ok else "aliased", locs=[idx.loc(wrap.module, stores[0].node)])
-
-    # ------------------------------------------------------------ clause 4: flatten / unflatten agreement
-    flatten_protocol(idx, rep)
-
-    rep.floor("write-site", 90)
-    rep.floor("public-root-param-write", 150)
-    rep.floor("operator-mutation", 6)
-    rep.floor("declare-annotation", 1)
-    rep.floor("flatten-protocol", 5)
-    rep.explanation = ("Ownership analysis: every in-place write site in cola/ (update_array, augmented assignment, subscript/attribute store, out=, mutating "
-                       "methods, setattr) is classified by the origins of its target (fresh / view / parameter / self attribute / global), flow-sensitively per "
-                       "function, with parameter-write and return-alias summaries propagated through resolved calls (dispatch rules, methods, loop-carried "
-                       "states) to a fixpoint; products are treated as possibly returning their operand because Identity._matmat does.")
-    rep.assumptions += [
-        "backend functions listed in sa/own.py XNP_FRESH return fresh storage; XNP_VIEW may alias their first argument",
-        "a parameter with a numeric/str default or int/float/bool/str annotation is an immutable scalar (augmented assignment rebinds)",
-        "the history clause of flatten (registry filled by first instance) is not decided",
-        "excluded symbols: " + "; ".join(f"{k[1]} ({v})" for k, v in EXCLUDED_FUNCS.items()),
-    ]
 
 
 def pub_name(f):
